@@ -93,6 +93,7 @@ type plan struct {
 	hMsg    string
 	hDet    bool
 	respSz  int
+	invoke  bool // unary call made through Invoke in one go
 	reads   bool // whether the handler reads its requests
 	cReads  bool // whether the caller reads responses
 	// progress
@@ -132,6 +133,9 @@ func newPlan(rng *rand.Rand, r int, t int, opt workloadOpts) *plan {
 	}
 	p.respSz = pickSize(rng, false)
 	p.cClose = true
+	if p.shape == "U" && !opt.meta && rng.Intn(2) == 0 {
+		p.invoke = true
+	}
 	if opt.meta {
 		p.md = pickMD(rng)
 		var o []string
@@ -329,7 +333,27 @@ func (wl *workload) Next(w *World, step int) string {
 		rs := w.rpcs[p.r]
 		if !p.newIssued {
 			allDone = false
-			add(3, wl.cnewLine(p))
+			if p.invoke {
+				add(3, fmt.Sprintf("cinvoke r=%d t=%d size=%d md=%s", p.r, p.t, p.cSends[0], p.md))
+			} else {
+				add(3, wl.cnewLine(p))
+			}
+			continue
+		}
+		if p.invoke {
+			// the whole client side runs inside Invoke; only the handler is scripted
+			if !w.flag(fmt.Sprintf("cterm%d", p.r)) {
+				allDone = false
+			}
+			if h := w.hand(p.r); h != nil && !p.hRet {
+				allDone = false
+				if !h.hr.isBusy() && !w.flag(fmt.Sprintf("hend%d", p.r)) && !w.flag(fmt.Sprintf("hgot%d", p.r)) {
+					add(2, fmt.Sprintf("hrecv r=%d", p.r))
+				}
+				if !h.hw.isBusy() && !h.hr.isBusy() && (w.flag(fmt.Sprintf("hgot%d", p.r)) || w.flag(fmt.Sprintf("hend%d", p.r))) {
+					add(2, wl.hretLine(p))
+				}
+			}
 			continue
 		}
 		if rs == nil || !rs.started {
@@ -443,7 +467,7 @@ func (wl *workload) commit(mv string) {
 		return
 	}
 	switch op {
-	case "cnew":
+	case "cnew", "cinvoke":
 		p.newIssued = true
 	case "csend":
 		p.ci++
